@@ -9,13 +9,23 @@
   * `C12_write_refused` / `C12_write_refused_uns`: a refused `io->write` leaves the writing machine's
     state untouched, so the same byte is offered again (`C12_retry_same_byte`);
   * `C12_writers`: only a machine in FLUSH_IO_WRITE offers bytes (from C11).
-  NOT proved in Lean (PARTIAL): the whole-run simulation ("the emitted stream and the handler
-  invocations under any schedule equal those under the eager schedule").  It follows from the
-  lemmas above by induction over schedules; that induction is not mechanised here and the claim
-  is instead sampled by the twin-run oracle (tools/families.py, meta_C12).
+  * `C12_refused_call_is_noop`: a whole `cat_service` call in which every io attempt is refused (the
+    command machine reads nothing or its write is refused; the unsolicited machine has nothing to
+    do or its write is refused) leaves the world exactly as it was, apart from the log of that call;
+  * `C12_schedule_stutter` (history level, `Proofs/Stutter.lean`): such a call can be inserted into or
+    removed from ANY history at ANY point: every later operation returns the same result and logs
+    the same events (reads, accepted and refused writes, handler and callback invocations with
+    their arguments), and the final world is the same.  By induction this extends to any number of
+    refused calls: two schedules that differ only in when refusals happen produce the same
+    outputs, handler invocations and final state.
+  NOT proved in Lean: the comparison of schedules that differ in *which call* delivers a given
+  input byte while the other machine has work to do (then the interleaving of the two machines'
+  steps differs, although each machine's own sequence does not) — sampled by the twin-run oracle
+  (tools/families.py, meta_C12), which compares an eager run with randomly scheduled ones.
 -/
 import CatVerif.Proofs.Quiesce
 import CatVerif.Proofs.Log
+import CatVerif.Proofs.Stutter
 namespace Cat
 open St
 
@@ -76,6 +86,27 @@ theorem C12_writers (D : Desc) (s : St) (i : SvcIn) :
     (s.state ≠ .flushWrite → tr .wrC (commandService D s i).1.log = tr .wrC s.log) ∧
     (s.ustate ≠ .flushWrite → tr .wrU (unsolicitedEventsService D s i).1.log = tr .wrU s.log) :=
   ⟨commandService_no_write D s i, unsolicitedEventsService_no_write D s i⟩
+
+/-- a call in which every io attempt is refused changes nothing but the log of that call -/
+theorem C12_refused_call_is_noop (D : Desc) (s : St) (i : SvcIn) (hu : StutterU D s i) (hc : StutterC D s i) :
+    ∃ l, (serviceBody D s i).1 = { s with log := l } :=
+  serviceBody_stutter D s i hu hc
+
+/-- **Refused calls do not matter, anywhere in any history**: inserting a `cat_service` call whose io
+attempts are all refused after the operations `a` changes neither the results and events of the
+operations before it, nor those of the operations `b` after it, nor the final world (the log of the
+last call aside). -/
+theorem C12_schedule_stutter (w : World) (a b : List Op) (i : SvcIn)
+    (hu : StutterU (runOps w a).1.D (runOps w a).1.s i) (hc : StutterC (runOps w a).1.D (runOps w a).1.s i) :
+    (runOps w (a ++ .service i :: b)).1.D = (runOps w (a ++ b)).1.D ∧
+    SameButLog (runOps w (a ++ b)).1.s (runOps w (a ++ .service i :: b)).1.s ∧
+    (runOps w (a ++ .service i :: b)).2.take a.length = (runOps w (a ++ b)).2.take a.length ∧
+    (runOps w (a ++ .service i :: b)).2.drop (a.length + 1) = (runOps w (a ++ b)).2.drop a.length :=
+  runOps_insert_stutter w a b i hu hc
+
+/-- non-vacuity: in the initial state a call without input is such a call -/
+example (D : Desc) : StutterU D (init D [] [] []) {} ∧ StutterC D (init D [] [] []) {} :=
+  ⟨Or.inl ⟨rfl, rfl⟩, Or.inl ⟨by simp [Reading, init], rfl⟩⟩
 
 /-- non-vacuity: a writing state with a refusing output -/
 example : ∃ (s : St) (i : SvcIn), s.state = .flushWrite ∧ i.wr = false ∧ (writeByte default s .cmd).1 ≠ 0 :=
